@@ -329,7 +329,10 @@ def conversion(ck: Check, info):
                         unk = [x for x in range(0, nums[-1] + 2) if x not in nums] + [2**31 - 1]
                         if fd.is_repeated:
                             del getattr(msg, fd.name)[:]
-                            getattr(msg, fd.name).extend([nums[0], unk[0], nums[-1], unk[-1]])
+                            # unknown numbers first / in the middle / last, varying per message
+                            shapes = ([unk[0], nums[0], nums[-1], unk[-1]], [nums[0], unk[0], nums[-1], unk[-1]],
+                                      [unk[-1], unk[0], nums[-1]], [nums[0], nums[-1], unk[0]])
+                            getattr(msg, fd.name).extend(shapes[(j // 3) % 4])
                         else:
                             setattr(msg, fd.name, rng.choice(unk))
             stats["messages"] += 1
@@ -359,6 +362,14 @@ def conversion(ck: Check, info):
                     if mv is not want:
                         ck.violation(f"enum-field:{cname}.{f.name}:{wv}", f"{cname}.from_pb: wire enum number {wv} became {mv!r}, "
                                      f"expected {want!r}", {"class": cname, "field": f.name, "value": wv})
+                if kind.startswith("enumlist:"):
+                    E = getattr(M, kind[9:])
+                    members = {int(x) for x in E}
+                    want = [E(x) for x in wv if x in members]
+                    if list(mv) != want or any(a is not b for a, b in zip(mv, want)):
+                        ck.violation(f"enum-list-field:{cname}.{f.name}", f"{cname}.from_pb: wire enum list {list(wv)} became {mv!r}, "
+                                     f"expected the known members in order {want!r}",
+                                     {"class": cname, "field": f.name, "value": list(wv), "payload": msg.SerializeToString().hex()})
             # to_dict / from_dict round trip for the four families
             if issubclass(cls, families):
                 stats["roundtrips"] += 1
